@@ -222,6 +222,15 @@ fn cmd_run(prop: &str, tier: Tier) -> i32 {
         }
     }
     unknown.sort_by_key(|f| (f.job, f.sub));
+    if let Ok(path) = std::env::var("VERIF_DUMP") {
+        let mut out = String::new();
+        for f in &sink.violations {
+            for v in &f.violations {
+                out.push_str(&format!("job={} sub={} rule={} note={} detail={}\n", f.job, f.sub, v.rule, f.plan.note, v.detail));
+            }
+        }
+        let _ = std::fs::write(path, out);
+    }
     let mut exit = 0;
     let mut replay_info = serde_json::Value::Null;
     if let Some(f) = unknown.first() {
